@@ -37,6 +37,7 @@ type Set struct {
 	Files  map[string]string   `json:"files"`
 	Expect map[string][]string `json:"expect"` // parent path -> ordered data-definition idents
 	Cases  map[string][]string `json:"cases"`  // choice path -> ordered case idents
+	Lists  map[string][]string `json:"lists"`  // "<kind>:<ident>" -> members in textual order (enum, bits, union, pattern, must, ext, iffeature, unique, key, default, idbase, rev)
 	Stmts  int                 `json:"stmts"`
 }
 
@@ -49,6 +50,107 @@ type gen struct {
 	gname []string
 	tdefs []string // typedef names usable in main (incl. prefixed)
 	ids   []string
+	facts map[string][]string // ordered member lists written so far
+	feats []string            // features usable in if-feature (all on)
+	exts  []string            // prefixed extension keywords usable as statements
+	plain bool                // inside imported modules: no list facts (their prefixes/features are not in scope)
+}
+
+// perm returns the numbers of pool in seeded order.
+func (g *gen) perm(pool []int) []int {
+	out := append([]int(nil), pool...)
+	for i := len(out) - 1; i > 0; i-- {
+		j := g.r.Intn(i + 1)
+		out[i], out[j] = out[j], out[i]
+	}
+	return out
+}
+
+// listyType writes a type whose members form an ordered list, in an order that
+// no sorting by name, value or position reproduces, and records it.
+func (g *gen) listyType(name string) string {
+	switch g.r.Intn(4) {
+	case 0:
+		labels := []string{"hi", "mid", "lo", "zz", "aa"}[:g.r.Range(3, 5)]
+		vals := g.perm([]int{1, 3, 7, 10, 20})
+		var b strings.Builder
+		b.WriteString("enumeration {")
+		for i, l := range g.permStr(labels) {
+			fmt.Fprintf(&b, " enum %s { value %d; }", l, vals[i])
+			g.facts["enum:"+name] = append(g.facts["enum:"+name], l)
+		}
+		b.WriteString(" }")
+		return b.String()
+	case 1:
+		labels := []string{"bx", "by", "ba", "bq"}[:g.r.Range(3, 4)]
+		pos := g.perm([]int{0, 1, 2, 5})
+		var b strings.Builder
+		b.WriteString("bits {")
+		for i, l := range g.permStr(labels) {
+			fmt.Fprintf(&b, " bit %s { position %d; }", l, pos[i])
+			g.facts["bits:"+name] = append(g.facts["bits:"+name], l)
+		}
+		b.WriteString(" }")
+		return b.String()
+	case 2:
+		members := g.permStr([]string{"int32", "string", "boolean", "uint8"})[:g.r.Range(2, 4)]
+		var b strings.Builder
+		b.WriteString("union {")
+		for _, m := range members {
+			fmt.Fprintf(&b, " type %s;", m)
+			g.facts["union:"+name] = append(g.facts["union:"+name], m)
+		}
+		b.WriteString(" }")
+		return b.String()
+	default:
+		pats := g.permStr([]string{"[a-z]*", "[a-m].*", ".*", "[^0-9]*"})[:g.r.Range(2, 4)]
+		var b strings.Builder
+		b.WriteString("string {")
+		for _, p := range pats {
+			fmt.Fprintf(&b, " pattern \"%s\";", p)
+			g.facts["pattern:"+name] = append(g.facts["pattern:"+name], p)
+		}
+		b.WriteString(" }")
+		return b.String()
+	}
+}
+
+func (g *gen) permStr(pool []string) []string {
+	out := append([]string(nil), pool...)
+	for i := len(out) - 1; i > 0; i-- {
+		j := g.r.Intn(i + 1)
+		out[i], out[j] = out[j], out[i]
+	}
+	return out
+}
+
+// listyExtra writes repeated substatements (must, if-feature, extension
+// statements) on the node called name and records their order.
+func (g *gen) listyExtra(name string) string {
+	if g.plain {
+		return ""
+	}
+	var parts []string
+	if g.r.Chance(1, 6) {
+		for _, e := range g.permStr([]string{"1 = 1", "2 > 1", "'a' != 'b'", "3 >= 2"})[:g.r.Range(2, 3)] {
+			parts = append(parts, fmt.Sprintf("must \"%s\";", e))
+			g.facts["must:"+name] = append(g.facts["must:"+name], e)
+		}
+	}
+	if len(g.feats) >= 2 && g.r.Chance(1, 8) {
+		for _, f := range g.permStr(g.feats)[:2] {
+			parts = append(parts, fmt.Sprintf("if-feature %s;", f))
+			g.facts["iffeature:"+name] = append(g.facts["iffeature:"+name], f)
+		}
+	}
+	if len(g.exts) > 0 && g.r.Chance(1, 6) {
+		for _, a := range g.permStr([]string{"a9", "a1", "a5", "a3"})[:g.r.Range(2, 4)] {
+			e := g.exts[g.r.Intn(len(g.exts))]
+			parts = append(parts, fmt.Sprintf("%s \"%s\";", e, a))
+			g.facts["ext:"+name] = append(g.facts["ext:"+name], e[strings.Index(e, ":")+1:]+" "+a)
+		}
+	}
+	return strings.Join(parts, " ")
 }
 
 func (g *gen) id(p string) string {
@@ -84,7 +186,14 @@ func (g *gen) extra() string {
 
 func (g *gen) leaf() *stmt {
 	g.n++
-	return &stmt{kind: "leaf", name: g.id("f"), typ: g.leafType(), extra: g.extra()}
+	name := g.id("f")
+	typ := ""
+	if !g.plain && g.r.Chance(1, 4) {
+		typ = g.listyType(name)
+	} else {
+		typ = g.leafType()
+	}
+	return &stmt{kind: "leaf", name: name, typ: typ, extra: strings.TrimSpace(g.extra() + " " + g.listyExtra(name))}
 }
 
 func (g *gen) body(depth int, allowUses bool) []*stmt {
@@ -100,10 +209,18 @@ func (g *gen) body(depth int, allowUses bool) []*stmt {
 			out = append(out, g.leaf())
 		case x < 6:
 			g.n++
-			out = append(out, &stmt{kind: "leaf-list", name: g.id("ll"), typ: g.r.Pick([]string{"string", "int32", "uint16"}), extra: g.extra()})
+			ll := &stmt{kind: "leaf-list", name: g.id("ll"), typ: g.r.Pick([]string{"string", "int32", "uint16"}), extra: g.extra()}
+			if !g.plain && g.r.Chance(1, 4) {
+				for _, d := range g.perm([]int{5, 1, 9, 3})[:g.r.Range(2, 4)] {
+					ll.extra += fmt.Sprintf(" default %d;", d)
+					g.facts["default:"+ll.name] = append(g.facts["default:"+ll.name], fmt.Sprint(d))
+				}
+			}
+			out = append(out, ll)
 		case x < 8 && depth < 3:
 			g.n++
 			c := &stmt{kind: "container", name: g.id("c"), extra: g.extra()}
+			c.extra = strings.TrimSpace(c.extra + " " + g.listyExtra(c.name))
 			c.children = g.body(depth+1, allowUses)
 			out = append(out, c)
 		case x < 10 && depth < 3:
@@ -111,9 +228,33 @@ func (g *gen) body(depth int, allowUses bool) []*stmt {
 			l := &stmt{kind: "list", name: g.id("l")}
 			k := &stmt{kind: "leaf", name: g.id("k"), typ: g.r.Pick([]string{"string", "int32"})}
 			l.key = k.name
-			l.children = append([]*stmt{k}, g.body(depth+1, allowUses)...)
+			keys := []*stmt{k}
+			if !g.plain && g.r.Chance(1, 3) {
+				// compound key whose order differs from the order of the key leaves themselves
+				k2 := &stmt{kind: "leaf", name: g.id("k"), typ: "string"}
+				k3 := &stmt{kind: "leaf", name: g.id("k"), typ: "int32"}
+				keys = []*stmt{k, k2, k3}
+				order := g.permStr([]string{k.name, k2.name, k3.name})
+				l.key = strings.Join(order, " ")
+				g.facts["key:"+l.name] = order
+			}
+			body := g.body(depth+1, allowUses)
+			l.children = append(keys, body...)
 			if g.r.Chance(1, 3) {
 				l.extra = "ordered-by user; min-elements 0; max-elements 50;"
+			}
+			if !g.plain {
+				var plainLeaves []string
+				for _, c := range body {
+					if c.kind == "leaf" {
+						plainLeaves = append(plainLeaves, c.name)
+					}
+				}
+				if len(plainLeaves) >= 2 && g.r.Chance(1, 2) {
+					pl := g.permStr(plainLeaves)
+					l.extra += fmt.Sprintf(" unique \"%s\"; unique \"%s\";", pl[0], pl[1])
+					g.facts["unique:"+l.name] = []string{pl[0], pl[1]}
+				}
 			}
 			out = append(out, l)
 		case x < 11 && depth < 3:
@@ -329,7 +470,7 @@ func Generate(r *kit.Rng, maxStmts int) *Set {
 }
 
 func generate(r *kit.Rng, maxStmts int) *Set {
-	g := &gen{r: r, max: maxStmts, grps: map[string]*grouping{}}
+	g := &gen{r: r, max: maxStmts, grps: map[string]*grouping{}, facts: map[string][]string{}, plain: true}
 	set := &Set{Main: "m", Files: map[string]string{}, Expect: map[string][]string{}, Cases: map[string][]string{}}
 
 	// imported modules g1, g2: typedef chains, identities, groupings
@@ -363,7 +504,9 @@ func generate(r *kit.Rng, maxStmts int) *Set {
 			}
 		}
 		fmt.Fprintf(&b, "  feature %s;\n  feature %s;\n", g.id("ft"), g.id("ft"))
-		fmt.Fprintf(&b, "  extension %s { argument a; }\n", g.id("ext"))
+		extName := g.id("ext")
+		fmt.Fprintf(&b, "  extension %s { argument a; }\n", extName)
+		g.exts = append(g.exts, name+":"+extName)
 		saveT, saveI := g.tdefs, g.ids
 		g.tdefs = []string{t1, t2, t3}
 		g.ids = nil
@@ -417,8 +560,24 @@ func generate(r *kit.Rng, maxStmts int) *Set {
 	for i := 0; i < r.Range(1, 4); i++ {
 		fmt.Fprintf(&mb, "  identity %s { base %s; }\n", g.id("id"), g.ids[r.Intn(len(g.ids))])
 	}
+	if len(g.ids) >= 2 {
+		// an identity with several bases, written in an order of their own
+		idn := g.id("id")
+		bases := g.permStr(g.ids)
+		fmt.Fprintf(&mb, "  identity %s {", idn)
+		for _, b := range bases {
+			fmt.Fprintf(&mb, " base %s;", b)
+			g.facts["idbase:"+idn] = append(g.facts["idbase:"+idn], b[strings.Index(b, ":")+1:])
+		}
+		mb.WriteString(" }\n")
+	}
 	f1 := g.id("ft")
-	fmt.Fprintf(&mb, "  feature %s;\n  feature %s { if-feature %s; }\n", f1, g.id("ft"), f1)
+	f2 := g.id("ft")
+	f3 := g.id("ft")
+	fmt.Fprintf(&mb, "  feature %s;\n  feature %s { if-feature %s; }\n  feature %s;\n", f1, f2, f1, f3)
+	g.feats = []string{f1, f2, f3}
+	g.facts["rev:m"] = []string{"2024-02-02", "2023-01-01"}
+	g.plain = false
 	// local groupings (may use imported groupings)
 	for i := 0; i < r.Range(1, 3); i++ {
 		before := len(g.gname)
@@ -539,7 +698,10 @@ func generate(r *kit.Rng, maxStmts int) *Set {
 			}
 			g.tdefs = vis
 		}
+		saveF := g.feats
+		g.feats = nil // features of the main module are referenced from the main module only
 		body := g.body(1, false)
+		g.feats = saveF
 		g.tdefs = saveT
 		emit(&b, 1, body)
 		b.WriteString("}\n")
@@ -585,5 +747,6 @@ func generate(r *kit.Rng, maxStmts int) *Set {
 		record(set, x.name, g.expand(x.body))
 	}
 	set.Stmts = g.n
+	set.Lists = g.facts
 	return set
 }
